@@ -135,6 +135,49 @@ func (e *c10ex) Exec(op string) string {
 		return okErr(e.a.RobotNB("deleteCCTransferFrom", w[1]))
 	case "cancel":
 		return okErr(e.a.RobotBatched("cancelCCTransferFrom", w[1]))
+	case "tobad":
+		// the robot's create-to with content the chaincode must refuse whatever the state: both ends the
+		// same channel, neither end this channel, a token of neither channel, a direction flag that
+		// contradicts the token
+		if len(w) != 5 || e.u(w[2]) == nil {
+			return "bad-op"
+		}
+		amt, ok := new(big.Int).SetString(w[3], 10)
+		if !ok || amt.Sign() < 0 {
+			return "err"
+		}
+		tr := &fpb.CCTransfer{Id: dec(w[1]), From: "VT", To: "CC", Token: e.token(), User: e.u(w[2]).AddrRaw, Amount: amt.Bytes(), ForwardDirection: e.fwd}
+		switch w[4] {
+		case "samech":
+			tr.From = "CC"
+		case "foreign":
+			tr.From, tr.To = "XX", "YY"
+		case "badtoken":
+			tr.Token = "ZZ"
+		case "wrongdir":
+			tr.ForwardDirection = !tr.ForwardDirection
+		default:
+			return "bad-op"
+		}
+		data, _ := json.Marshal(tr)
+		return okErr(e.b.RobotBatched("createCCTransferTo", string(data)))
+	case "frombad":
+		// initiations the chaincode must refuse: to its own channel, with a token of neither channel,
+		// by the admin for himself, by somebody who is not the admin
+		if len(w) != 5 || e.u(w[2]) == nil {
+			return "bad-op"
+		}
+		switch w[4] {
+		case "ownch":
+			return okErr(e.a.Do(e.u(w[2]), "channelTransferByCustomer", dec(w[1]), "VT", e.token(), w[3]))
+		case "badtoken":
+			return okErr(e.a.Do(e.u(w[2]), "channelTransferByCustomer", dec(w[1]), "CC", "ZZ", w[3]))
+		case "notadmin":
+			return okErr(e.a.Do(e.u(w[2]), "channelTransferByAdmin", dec(w[1]), "CC", e.u(w[2]).Addr, e.token(), w[3]))
+		case "adminself":
+			return okErr(e.a.Do(wd.AdminU, "channelTransferByAdmin", dec(w[1]), "CC", wd.AdminU.Addr, e.token(), w[3]))
+		}
+		return "bad-op"
 	case "xto", "xcommit", "xdelto", "xdelfrom", "xcancel":
 		// the robot's steps attempted by an ordinary client certificate; whatever gets recorded is
 		// then executed by the robot's next batch, as the robot executes every pending request it finds
@@ -290,6 +333,23 @@ func genC10(c *Cfg, emit func([]string)) {
 				h = append(h, x, "dump", "to t1 u0 40", "dump", "commit t1", "dump", "cancel t1", "dump")
 				emit(h)
 			}
+		}
+	}
+	// (a'') malformed initiations and create-to contents at every stage
+	for _, dir := range []string{"f", "b", "g", "h"} {
+		for _, st := range stages[:3] {
+			h := []string{"reset " + dir, "fund u0 100"}
+			for _, p := range st {
+				h = append(h, p, "dump")
+			}
+			for _, v := range []string{"samech", "foreign", "badtoken", "wrongdir"} {
+				h = append(h, "tobad t2 u0 40 "+v, "tobad t1 u0 40 "+v, "dump")
+			}
+			for _, v := range []string{"ownch", "badtoken", "notadmin", "adminself"} {
+				h = append(h, "frombad t3 u0 40 "+v, "dump")
+			}
+			h = append(h, "to t1 u0 40", "dump")
+			emit(h)
 		}
 	}
 	// (b) two ids, two users, protocol runs interleaved with out-of-turn and repeated attempts,
